@@ -119,7 +119,7 @@ func checkCmd(args []string) {
 
 	work, _ := os.MkdirTemp("", "gvc-"+*prop+"-")
 	defer os.RemoveAll(work)
-	scfg := eng.SolverConfig{WorkDir: work, TimeoutS: 10, Parallel: 16}
+	scfg := eng.SolverConfig{WorkDir: work, TimeoutS: 30, Parallel: 16}
 	if *tier == "thorough" {
 		scfg.TimeoutS = 60
 		scfg.Confirm = true
